@@ -603,11 +603,34 @@ func hasEmptyRing(poly [][]Pt) bool {
 	return false
 }
 
+// evalC05Corpus runs one committed case with its own flags and with keep-points-and-lines toggled.
+func evalC05Corpus(c *hc.Ctx, g *Grid, poly [][]Pt, kind string, ids []int, cfg snap.Config) {
+	for _, keep := range []bool{cfg.KeepPointsAndLines, !cfg.KeepPointsAndLines} {
+		cf := cfg
+		cf.KeepPointsAndLines = keep
+		r := runSnap(g, poly, ids, cf, watchdog)
+		c.Sum.Evaluations++
+		c.Count("kind " + kind)
+		if collapses(g, poly, r) {
+			c.Nontrivial(keyOf(g, poly, ids, snap.Config{}))
+		}
+		if unexpectedPanic(c, g, poly, ids, cf, r) {
+			continue
+		}
+		checkRingsWellFormed(c, g, poly, ids, cf, r)
+		c.Case("SnapC ("+snapCaseTerm(g, poly, ids, cf, r)+")", caseJSON(g, poly, ids, cf, r))
+	}
+}
+
 func runC05(c *hc.Ctx) error {
 	c.CorrInit("Texel.Corr.C05", "theories/Corr/C05.v", 100)
 	c.Sum.Rule = "polygons inside the grid, valid or not (raw sequences with repeats/spikes/zigzags, combs, slivers, valid shapes with holes), each run with all four combinations of keep-points-and-lines and reverse-winding-order; distinct by (grid, polygon, ids); non-trivial = collapses at some level"
 	c.Sum.Oracle = "per returned ring: >= 1 vertex, first != last, no equal neighbours, no vertex twice, shell CCW / holes CW unless zero area (opposite with reverse); without keep: >= 3 vertices and no level mapped to []; with keep: every level present without it carries the same polygons as a prefix, followed by single-ring polygons of one or two vertices"
 	grids := syntheticGrids()
+	// committed witnesses first (corpus/C05: F14, a two-vertex line that repeated its point)
+	if err := runCorpus(c, evalC05Corpus); err != nil {
+		return err
+	}
 	n := c.N(450, 30000)
 	if c.Search {
 		n *= 10
